@@ -1511,6 +1511,9 @@ class TT():
             result = torchtt._extras.reshape(self, shape_new, eps, rmax)
         else:
             for core in self.cores:
+                if mode_size**int(round(math.log(core.shape[1], mode_size))) != core.shape[1]:
+                    raise ShapeMismatch('Reshaping error: check if the dimensions are powers of the desired mode size:\r\ncore size '+str(
+                        list(core.shape))+' cannot be reshaped.')
                 if int(math.log(core.shape[1], mode_size)) > 1:
                     Nnew = [core.shape[0]*mode_size]+[mode_size] * \
                         (int(
